@@ -233,6 +233,10 @@ def parser_rules(ctx):
             if pos:
                 pr = T.reach_cp(b, [pos[0]], stop=hdrs) - T.reach_cp(b, [pos[1]], stop=hdrs); nr = T.reach_cp(b, [pos[1]], stop=hdrs) - T.reach_cp(b, [pos[0]], stop=hdrs)
                 table['E+'] = leaf_effects(pr & eq_reg); table['E-'] = leaf_effects(nr & eq_reg)
+                shared = leaf_effects(eq_reg - pr - nr)[0]
+                if not table['E+'][0] and not table['E-'][0] and shared == [('Add', 'b', 'r')]:
+                    # `b + r` computed once for both signs is the same as b + |r| / b - |r|
+                    table['E+'] = (shared, table['E+'][1]); table['E-'] = (shared, table['E-'][1])
             for k, name in (('ge', 'G'), ('le', 'L')):
                 g = conts[k]
                 reg = T.reach_cp(b, [g.true_bb], stop=hdrs) - T.reach_cp(b, [g.false_bb], stop=hdrs)
@@ -241,7 +245,8 @@ def parser_rules(ctx):
                     'G': ([('Add', 'b', '|r|')], {('le', 'insert')}), 'L': ([('Sub', 'b', '|r|')], {('ge', 'insert')})}
             for k in want:
                 got = table.get(k)
-                ctx.check(got is not None and got[0] == want[k][0] and got[1] == want[k][1], 'C17.ranges/' + k, 'T-BRANCHFX', b.name,
+                alt = {'E+': [[('Add', 'b', 'r')]], 'E-': [[('Add', 'b', 'r')]]}.get(k, [])     # the sign of r is known inside the E cases
+                ctx.check(got is not None and (got[0] == want[k][0] or got[0] in alt) and got[1] == want[k][1], 'C17.ranges/' + k, 'T-BRANCHFX', b.name,
                           'RANGES on a %s row: second right-hand side is %s with sets %s; the format says %s' % (k, got and got[0], got and sorted(got[1]), want[k][0]), b.site(), table=str(got))
             eqrm = ('eq', 'remove') in {e[:2] for e in table_effects(ctx, b, eq_reg)}
             ctx.check(eqrm, 'C17.ranges/E-becomes-two-inequalities', 'T-BRANCHFX', b.name, 'a ranged E row is not removed from the equalities', b.site())
